@@ -922,6 +922,12 @@ class Exec:
             h2 = self.methods.get((base.cls, attr))
             if h2 is not None:
                 return h2(self, base, n, env, fr)
+            if self.abstract:
+                # the record models only part of the real class: an attribute it does not know is an uninterpreted function of
+                # the object (never a spurious AttributeError)
+                from .objmodels import opaque_attr
+                o = opaque_attr(self, base, attr)
+                return o
             raise PathRaise("AttributeError", n)
         if isinstance(base, Opaque):
             from .objmodels import opaque_attr
@@ -1815,6 +1821,9 @@ class Exec:
             h = self.models.get(f"class:{fn.name}")
             if h is not None:
                 return h(self, args, kwargs, n)
+            if self.abstract:
+                from .objmodels import construct_abstract
+                return construct_abstract(self, fn.name, args, kwargs)
             raise Unsupported(f"construction of {fn.name}")
         if isinstance(fn, LambdaVal):
             e2 = dict(fn.env)
